@@ -18,6 +18,9 @@ fn c34(args: &Args) -> i32 {
     sink.add(st.segop);
     sink.add(st.seqop);
     sink.add(st.rechunk);
+    sink.add(st.build_r);
+    sink.add(st.segop_r);
+    sink.add(st.seqop_r);
     sink.add(ix);
     sink.finish();
     0
